@@ -759,6 +759,25 @@ def custom_lines(chk, quick):
             inj = injections(g, key, base, rng)
             if "extensions" not in base and key.startswith("observables:") and key.split(":")[1] in schema.EXT_FOR:
                 pass
+            if v == "2.1":
+                # custom material together with an unregistered extension-definition extension (which by itself is not a customisation), before and after it
+                extdef = {"extension_type": "property-extension", "rank": 1}
+                more = []
+                for place, d in inj:
+                    if quick and rng.random() < 0.6:
+                        continue
+                    if not isinstance(d.get("extensions", {}), dict):
+                        continue
+                    a = copy.deepcopy(d)
+                    a["extensions"] = dict(a.get("extensions", {}), **{"extension-definition--" + g.uid(): dict(extdef)})
+                    more.append((place + "+extension_definition_after", a))
+                    b = copy.deepcopy(d)
+                    b["extensions"] = dict({"extension-definition--" + g.uid(): dict(extdef)}, **b.get("extensions", {}))
+                    more.append((place + "+extension_definition_before", b))
+                ctl = copy.deepcopy(base)
+                ctl["extensions"] = dict(ctl.get("extensions", {}), **{"extension-definition--" + g.uid(): dict(extdef)})
+                lines.append(custom_one(v, key, "no_custom_content+extension_definition", ctl, "permissive", False))
+                inj = inj + more
             for place, d in inj:
                 obs = is_obs20(key, v)
                 lines.append(custom_one(v, key, place, d, "strict", obs))
@@ -777,6 +796,16 @@ def custom_lines(chk, quick):
             b["spec_version"] = "2.0"
         for mode in ("strict", "permissive"):
             lines.append(custom_one(v, "objects:bundle", "unregistered_type_in_bundle", b, mode, False))
+        if v == "2.1":
+            # an unregistered type carrying an extension-definition extension: only an extension that defines a new object type (new-sdo / new-sco / new-sro) is documented to
+            # let the dictionary through; every other extension type leaves it an unregistered type
+            for et in ("property-extension", "toplevel-property-extension", "", None, "new-thing"):
+                ext = {} if et is None else {"extension_type": et}
+                u = {"type": "x-unregistered", "id": "x-unregistered--11111111-1111-4111-8111-111111111111", "spec_version": "2.1", "created": "2020-01-01T00:00:00.000Z",
+                     "modified": "2020-01-01T00:00:00.000Z", "a": 1, "extensions": {"extension-definition--22222222-2222-4222-8222-222222222222": ext}}
+                lines.append(custom_one(v, "objects:?", "unregistered_type_with_extension_definition:%s" % et, u, "strict", False))
+                lines.append(custom_one(v, "objects:bundle", "bundle_member:unregistered_type_with_extension_definition:%s" % et,
+                                        {"type": "bundle", "id": "bundle--11111111-1111-4111-8111-111111111111", "objects": [u]}, "strict", False))
         if v == "2.0":
             od = {"type": "observed-data", "id": "observed-data--11111111-1111-4111-8111-111111111111", "created": "2020-01-01T00:00:00.000Z", "modified": "2020-01-01T00:00:00.000Z",
                   "first_observed": "2020-01-01T00:00:00Z", "last_observed": "2020-01-01T00:00:00Z", "number_observed": 1, "objects": {"0": {"type": "x-unregistered-obs", "a": 1}}}
